@@ -598,6 +598,89 @@ def gen_matrix_case(rng):
                      "arrays": True, "singular": True}}
 
 
+def gen_two_groups_model(rng):
+    """ORDERED alias groups: first a group of 2-4 algebraic variables (algebraic canonical), then a group of 1-3
+    algebraic variables anchored at an input / state / unset parameter, then ONE linking alias equation between a
+    member of each, either side first, with negations.  Everything equals +-anchor."""
+    kind = rng.choice(["input", "input", "state", "param"])
+    val = {"time": dy(rng, 0, 3)}
+    decl, eqs = [], []
+    if kind == "input":
+        decl.append("input Real u1;"); w = "u1"
+    elif kind == "state":
+        decl.append("Real x1;"); w = "x1"
+        val["der(x1)"] = dy(rng)
+    else:
+        decl.append("parameter Real p1;"); w = "p1"
+    val[w] = dy(rng, nonzero=True)
+    k1, k2 = rng.randint(2, 4), rng.randint(1, 3)
+    g1 = ["a%d" % (i + 1) for i in range(k1)]
+    g2 = ["d%d" % (i + 1) for i in range(k2)]
+    sign = {}
+    # group 2 first fixes the signs relative to the anchor; group 1 gets its signs through the link
+    e2 = []
+    prev = [w]
+    sign[w] = 1
+    for n in g2:
+        t = rng.choice(prev)
+        f, neg = rng.choice(ALIAS_FORMS)
+        e2.append(f % {"n": n, "w": t})
+        sign[n] = -sign[t] if neg else sign[t]
+        prev.append(n)
+    m1, m2 = rng.choice(g1), rng.choice(g2)
+    f, neg = rng.choice(ALIAS_FORMS)
+    link = f % ({"n": m1, "w": m2} if rng.random() < 0.5 else {"n": m2, "w": m1})
+    sign[m1] = -sign[m2] if neg else sign[m2]
+    # group 1: a spanning tree rooted at m1, written in the order the tree is grown
+    e1, done, todo = [], [m1], [n for n in g1 if n != m1]
+    rng.shuffle(todo)
+    for n in todo:
+        t = rng.choice(done)
+        f1, neg1 = rng.choice(ALIAS_FORMS)
+        e1.append(f1 % {"n": n, "w": t})
+        sign[n] = -sign[t] if neg1 else sign[t]
+        done.append(n)
+    for n in g1 + g2:
+        decl.append("Real %s;" % n)
+        val[n] = sign[n] * val[w]
+    order = rng.random()
+    eqs = e1 + e2 + [link] if order < 0.6 else (e2 + e1 + [link] if order < 0.8 else None)
+    if eqs is None:
+        eqs = e1 + e2 + [link]
+        rng.shuffle(eqs)
+    if kind == "state":
+        eqs.append("der(x1) = %s" % num(val["der(x1)"]))
+    text = "model M\n  %s\nequation\n  %s;\nend M;\n" % ("\n  ".join(decl), ";\n  ".join(eqs))
+    return {"text": text, "cls": "M", "val": val, "kinds": {"two_alias_groups_" + kind: 1},
+            "n_unknowns": k1 + k2 + (1 if kind == "state" else 0), "elim_graph": {}, "names": sorted(val)}
+
+
+def gen_typed_alias_model(rng):
+    """Integer variables aliased to Real ones and to each other, both orientations and signs"""
+    val = {"time": dy(rng, 0, 3)}
+    decl, eqs = [], []
+    root = rng.randint(-4, 4)
+    names = []
+    n_var = rng.randint(3, 5)
+    for i in range(n_var):
+        typ = rng.choice(["Integer", "Real"]) if i else rng.choice(["Integer", "Integer", "Real"])
+        n = ("n%d" if typ == "Integer" else "r%d") % (i + 1)
+        decl.append("%s %s;" % (typ, n))
+        if i == 0:
+            eqs.append("%s = %d" % (n, root))
+            val[n] = F(root)
+        else:
+            w = rng.choice(names)
+            f, neg = rng.choice(ALIAS_FORMS)
+            eqs.append(f % {"n": n, "w": w})
+            val[n] = -val[w] if neg else val[w]
+        names.append(n)
+    rng.shuffle(eqs)
+    text = "model M\n  %s\nequation\n  %s;\nend M;\n" % ("\n  ".join(decl), ";\n  ".join(eqs))
+    return {"text": text, "cls": "M", "val": val, "kinds": {"typed_alias": 1}, "n_unknowns": n_var,
+            "elim_graph": {}, "names": sorted(val)}
+
+
 def gen_alias_options(rng):
     o = {"detect_aliases": True,
          "eliminate_constant_assignments": rng.random() < 0.5,
@@ -987,6 +1070,11 @@ def build_cases(ctx):
         o = {"eliminable_variable_expression": ELIM_RE, "expand_mx": True,
              "detect_aliases": rng.random() < 0.4, "eliminate_constant_assignments": rng.random() < 0.3}
         cases.append(make_case(rng, mdl, o))
+    # two ordered alias groups + one linking equation; Integer / Real aliases
+    for _ in range(ctx.scaled(24, 200)):
+        cases.append(make_case(rng, gen_two_groups_model(rng), gen_alias_options(rng)))
+    for _ in range(ctx.scaled(12, 100)):
+        cases.append(make_case(rng, gen_typed_alias_model(rng), gen_alias_options(rng)))
     # multi-pass stream: aliases that only appear in pass 2+ (iterative_simplification; in the correspondence)
     for _ in range(ctx.scaled(24, 250)):
         mdl = gen_alias_model(rng, late=True)
